@@ -100,3 +100,21 @@ Theorem directive_variables_not_listed :
 Proof.
   exists [SField "f" "f" [] [("skip", [("if", VVar "v")])] []], "v". split; [cbn; auto|]. cbn. tauto.
 Qed.
+
+(* a follow-up step sends its own `id` variable: every other forwarded variable keeps the client's value, but a client
+   variable that is itself called `id` is replaced by the id of the object (listed finding C02-variable-named-id) *)
+Lemma assoc_set_other {V} k k' (v : V) l : k' <> k -> assoc k' (assoc_set k v l) = assoc k' l.
+Proof.
+  intros Hne. induction l as [|[a b] t IH]; cbn.
+  - destruct (k =? k')%string eqn:E; [apply String.eqb_eq in E; congruence|reflexivity].
+  - destruct (a =? k)%string eqn:E1; cbn.
+    + apply String.eqb_eq in E1. subst a. destruct (k =? k')%string eqn:E2; [apply String.eqb_eq in E2; congruence|reflexivity].
+    + destruct (a =? k')%string; [reflexivity|exact IH].
+Qed.
+Theorem other_variables_keep_the_clients_value client_vars listed node_id n :
+  n <> "id" -> assoc n (step_variables client_vars listed node_id) = assoc n (forwarded client_vars listed).
+Proof. intros Hn. unfold step_variables. destruct node_id; [now apply assoc_set_other|reflexivity]. Qed.
+Theorem client_variable_named_id_is_replaced :
+  exists client_vars listed node_id, assoc "id" (forwarded client_vars listed) = Some (JNum "7") /\
+    assoc "id" (step_variables client_vars listed node_id) = Some (JStr "h1").
+Proof. exists [("id", JNum "7")], ["id"], (Some "h1"). split; reflexivity. Qed.
